@@ -2,6 +2,7 @@ SPECIFICATION LSpec
 CONSTANTS
   MaxPieces = 3
   MaxPhrase = 4
+  MaxTmpl = 0
   Hosts = {"out", "assign"}
   EmitAll = TRUE
 INVARIANTS Emit
